@@ -94,6 +94,9 @@ InitSrv == [serving |-> FALSE, closed |-> FALSE, done |-> FALSE, reg |-> {},
 CbNames == {"GetCapabilities", "OnOpenMessage", "OnEstablished", "Update", "OnClose"}
 (* points where the peer manager calls the application's Logger (a gate there holds the PM itself) *)
 PmGateNames == {"dis-out", "dis-in", "apv-out", "apv-in", "err-out", "err-in"}
+(* schedule point inside the FSM goroutine right after its k-th approved transition (hook verifFSMHook);
+   numbered like the PM's apv log point of the same direction *)
+EntName(d) == IF d = "out" THEN "ent-out" ELSE "ent-in"
 PmGateName(kind, d) == CASE kind = "dis" -> (IF d = "out" THEN "dis-out" ELSE "dis-in")
                          [] kind = "apv" -> (IF d = "out" THEN "apv-out" ELSE "apv-in")
                          [] kind = "err" -> (IF d = "out" THEN "err-out" ELSE "err-in")
@@ -703,8 +706,10 @@ PmStep(p) ==
                   pm' = [pm EXCEPT ![p].todo = todo2, ![p].pc = IF todo2 = <<>> THEN "sel" ELSE "run",
                                    ![p].st[op.d] = op.t.to]
                /\ gh' = GhLog(p, PmGateName("apv", op.d))
-               /\ fsm' = [fsm EXCEPT ![p][op.d].pc = "run", ![p][op.d].cur = op.t.to,
-                                     ![p][op.d].todo = EnterProg(p, op.d, op.t.to)]
+               /\ LET eg == [n |-> EntName(op.d), k |-> gh.ncb[p][PmGateName("apv", op.d)] + 1]
+                      held == (\E i \in 1..Len(cfg[p].gates) : cfg[p].gates[i] = eg) /\ eg \notin gh.released[p]
+                  IN fsm' = [fsm EXCEPT ![p][op.d].pc = "run", ![p][op.d].cur = op.t.to,
+                                        ![p][op.d].todo = (IF held THEN <<OpGate(eg)>> ELSE <<>>) \o EnterProg(p, op.d, op.t.to)]
                /\ conn' = IF op.t.to \in Session /\ fsm[p][op.d].conn # ""
                             THEN [conn EXCEPT ![fsm[p][op.d].conn].ceaseDue = TRUE] ELSE conn
                /\ UNCHANGED out
